@@ -291,6 +291,8 @@ func (s *Supervisor) ClientDisconnectedState(e *am.Event) {
 	srv, ok := s.PublicRpcs[addr]
 	if !ok {
 		s.log("client %s disconnected, but not found", addr)
+
+		return
 	}
 	srv.Stop(e, true)
 	delete(s.PublicRpcs, addr)
